@@ -14,6 +14,7 @@ import (
 	"sync"
 
 	"gitlab.com/gomidi/midi/v2"
+	"gitlab.com/gomidi/midi/v2/drivers"
 	"gitlab.com/gomidi/midi/v2/drivers/testdrv"
 	"gitlab.com/gomidi/midi/v2/smf"
 
@@ -206,6 +207,7 @@ func construct(fn string, a []int) midi.Message {
 type loop struct {
 	send func([]byte) error
 	got  [][]byte
+	out  drivers.Out
 }
 
 func newLoop(noOpts ...bool) *loop {
@@ -225,7 +227,17 @@ func newLoop(noOpts ...bool) *loop {
 	}
 	outs[0].Open()
 	l.send = outs[0].Send
+	l.out = outs[0]
 	return l
+}
+
+// viaSendTo: messages leave through the function midi.SendTo returns instead of the port's own Send
+func (l *loop) viaSendTo() {
+	send, err := midi.SendTo(l.out)
+	if err != nil {
+		hx.Die(err)
+	}
+	l.send = func(b []byte) error { return send(midi.Message(b)) }
 }
 
 func (l *loop) roundtrip(m []byte) [][]byte {
@@ -240,6 +252,9 @@ type CallRec struct {
 	Args  []int             `json:"args"`
 	CtxFn string            `json:"ctxfn"` // a message sent before through the same listener ("" = none): a loopback has state
 	CtxA  []int             `json:"ctxargs"`
+	Ctx2F string            `json:"ctx2fn"` // a second message sent before, after the first ("" = none)
+	Ctx2A []int             `json:"ctx2args"`
+	Via   string            `json:"via"` // "" = the out port's Send, "sendto" = the function midi.SendTo returns
 	Bytes hx.B              `json:"bytes"`
 	Acc   map[string]accRes `json:"acc"`
 	Loop  []hx.B            `json:"loop"`
@@ -247,12 +262,21 @@ type CallRec struct {
 }
 
 func doCall(fn string, args []int, ctx ...interface{}) *CallRec {
-	r := &CallRec{Ev: "call", Fn: fn, Args: args, Loop: []hx.B{}, Acc: map[string]accRes{}, CtxA: []int{}}
+	r := &CallRec{Ev: "call", Fn: fn, Args: args, Loop: []hx.B{}, Acc: map[string]accRes{}, CtxA: []int{}, Ctx2A: []int{}}
 	if r.Args == nil {
 		r.Args = []int{}
 	}
-	if len(ctx) == 2 {
+	if len(ctx) >= 2 {
 		r.CtxFn, r.CtxA = ctx[0].(string), ctx[1].([]int)
+	}
+	if len(ctx) == 5 {
+		r.Ctx2F, r.Ctx2A, r.Via = ctx[2].(string), ctx[3].([]int), ctx[4].(string)
+	}
+	if r.CtxA == nil {
+		r.CtxA = []int{}
+	}
+	if r.Ctx2A == nil {
+		r.Ctx2A = []int{}
 	}
 	r.Panic = hx.Catch(func() {
 		m := construct(fn, args)
@@ -260,8 +284,14 @@ func doCall(fn string, args []int, ctx ...interface{}) *CallRec {
 		r.Acc = allMidiAcc(m)
 		// a fresh loopback per record; an optional context message goes through the same listener first
 		lp := newLoop(len(args)%2 == 1 || (len(args) > 0 && args[0]%2 == 1))
+		if r.Via == "sendto" {
+			lp.viaSendTo()
+		}
 		if r.CtxFn != "" {
 			lp.roundtrip(construct(r.CtxFn, r.CtxA))
+		}
+		if r.Ctx2F != "" {
+			lp.roundtrip(construct(r.Ctx2F, r.Ctx2A))
 		}
 		for _, g := range lp.roundtrip(m) {
 			r.Loop = append(r.Loop, append(hx.B{}, g...))
@@ -658,7 +688,22 @@ func cmdCtorSweep(args []string) {
 		default:
 			a = []int{}
 		}
-		if len(a) >= 2 && w.N%2 == 0 { // half of the samples with a context message on another channel / of another kind
+		if len(a) >= 2 && a[0] < 16 && w.N%4 == 1 {
+			// a quarter: through the sender of midi.SendTo, after a message with the SAME status byte and then a system common /
+			// real-time / sysex-free message in between (what a sender that elides status bytes must get right)
+			ca := append([]int{a[0]}, a[1:]...)
+			if fn != "Pitchbend" {
+				for i := 1; i < len(ca); i++ {
+					ca[i] = r.Intn(128)
+				}
+			}
+			c2 := [][2]interface{}{{"SongSelect", []int{r.Intn(128)}}, {"SPP", []int{r.Intn(16384)}}, {"MTC", []int{r.Intn(128)}}, {"Tune", []int{}}, {"", []int{}}}[r.Intn(5)]
+			via := "sendto"
+			if r.Intn(4) == 0 {
+				via = ""
+			}
+			w.Put(doCall(fn, a, fn, ca, c2[0].(string), c2[1].([]int), via))
+		} else if len(a) >= 2 && w.N%2 == 0 { // half of the samples with a context message on another channel / of another kind
 			cfn := fn
 			if r.Intn(4) == 0 {
 				cfn = []string{"NoteOn", "NoteOffVelocity", "PolyAfterTouch", "ControlChange"}[r.Intn(4)]
@@ -1098,13 +1143,16 @@ func cmdRerun(args []string) {
 			Warm  bool   `json:"warm"`
 			CtxFn string `json:"ctxfn"`
 			CtxA  []int  `json:"ctxargs"`
+			Ctx2F string `json:"ctx2fn"`
+			Ctx2A []int  `json:"ctx2args"`
+			Via   string `json:"via"`
 		}
 		if err := json.Unmarshal(l, &head); err != nil {
 			hx.Die(err)
 		}
 		if head.Ev == "call" {
 			if head.CtxFn != "" {
-				w.Put(doCall(head.Fn, head.Args, head.CtxFn, head.CtxA))
+				w.Put(doCall(head.Fn, head.Args, head.CtxFn, head.CtxA, head.Ctx2F, head.Ctx2A, head.Via))
 			} else {
 				w.Put(doCall(head.Fn, head.Args))
 			}
